@@ -175,10 +175,11 @@ func (c *conn) writeloop() {
 					err = io.ErrClosedPipe
 				}
 				verifYield("cli.write.beforeErr", c)
+				// Close the client before reporting the failure, so that a call issued as soon as this
+				// one has returned already sees a terminated connection and reconnects.
+				_ = c.terminate(err)
 				req.err <- err
 				close(req.err)
-				// Close the client
-				_ = c.terminate(err)
 				return
 			}
 			close(req.err)
